@@ -220,21 +220,21 @@ class Ctx:
         for rel, files in pkgs.items():
             pkgname = None
             for fn in files:
-                src = os.path.join(HARNESS, rel, fn)
+                src = os.path.join(HARNESS, "root" if rel == "." else rel, fn)
                 if not os.path.exists(src):
                     raise Infra("missing harness file " + src)
-                rep[os.path.join(REPO, rel, fn)] = src
+                rep[os.path.normpath(os.path.join(REPO, rel, fn))] = src
                 if pkgname is None:
                     m = re.search(r"^package (\w+)", open(src).read(), re.M)
                     pkgname = m.group(1)
             if common:
                 tmpl = open(os.path.join(HARNESS, "_common", "vfio_test.go.tmpl")).read()
-                dst = os.path.join(od, rel.replace("/", "_") + "_vfio_verif_test.go")
+                dst = os.path.join(od, rel.replace("/", "_").replace(".", "root") + "_vfio_verif_test.go")
                 with open(dst, "w") as f:
                     f.write(tmpl.replace("__PKG__", pkgname))
-                rep[os.path.join(REPO, rel, "zz_vfio_verif_test.go")] = dst
+                rep[os.path.normpath(os.path.join(REPO, rel, "zz_vfio_verif_test.go"))] = dst
         for k, v in (replace or {}).items():
-            rep[os.path.join(REPO, k)] = v
+            rep[os.path.normpath(os.path.join(REPO, k))] = v
         p = os.path.join(od, "overlay.json")
         with open(p, "w") as f:
             json.dump({"Replace": rep}, f, indent=1)
